@@ -18,16 +18,20 @@ CLAIMS = {
         note='Modelled not verified: the mv_* wrapper functions (allocation of out, broadcasting) are covered by differential tests; '
              'the tracing translator is trusted but its output is compared with the real functions on every operand combination on every run.'),
     'C01': dict(
-        technique='Coq proofs over regenerated LUT/dispatch tables + hand model of SimOps/LogicSim with correspondence; gate-by-gate oracle',
-        text='Proof (partial). Proved for all inputs: every LUT constant equals its primitive\'s Boolean function (33x16), both 2-valued '
-             'dispatch copies (_prop_cpu and the callback loop, re-traced from the source on every run) compute that function per lane, '
-             'primitive selection by kind prefix/arity, opcode injectivity, lane independence for any batch size (lifting lemma). '
-             'NOT yet one theorem: that SimOps\' op list is a topological evaluation of the netlist and that the memory map preserves '
-             'line-level semantics; those links are modelled (Model/SimOps.v, Model/LogicSimModel.v) and tied by exact correspondence '
-             'on generated circuits (ops, levels, c_locs, c_caps, c_len, s[0], s[1] after k cycles) plus an independent evaluator.',
+        technique='Coq proof that the scheduler\'s op list, executed gate by gate, satisfies every node\'s equation for all well-formed acyclic netlists (+ uniqueness), over regenerated LUT/dispatch tables; memory map by certificate; exact correspondence; gate-by-gate oracle',
+        text='Proof (scheduler level full, memory level by certificate). Proved for all inputs: every LUT constant equals its primitive\'s '
+             'Boolean function; both 2-valued dispatch copies (re-traced from the source on every run) compute it per lane; primitive '
+             'selection; opcode injectivity; lane independence for any batch size; and the MAIN theorem: for EVERY well-formed, '
+             'combinationally acyclic netlist and EVERY stimulus the op list that SimOps builds (Kahn order, interface BUF/INV ops, forks, '
+             'LUT selection by kind prefix and connected pins, zero slot for unconnected pins), executed gate by gate in any value domain, '
+             'yields a valuation satisfying every node\'s equation, and solutions are unique. The flat-memory execution equals the '
+             'line-level one for every map passing the ownership certificate (C08_map_check_sound); the certificate, the executable twin of '
+             'the main theorem and the models of SimOps/LogicSim (ops, levels, c_locs, s[0], s[1] after k cycles) are evaluated / compared '
+             'on every generated circuit, plus an independent evaluator.',
         design_ref='5/C01',
-        note='Modelled not verified: SimOps.__init__, LogicSim.s_to_c/c_prop/c_to_s/s_ppo_to_ppi/cycle, Circuit.topological_order. '
-             'Out of domain: state elements without any output connection or without data input (numpy index -1 aliasing).'),
+        note='Modelled not verified: SimOps.__init__, LogicSim.s_to_c/c_prop/c_to_s/s_ppo_to_ppi/cycle, Circuit.topological_order (hand '
+             'transcriptions tied by exact correspondence). Not theorems: that build() always yields a map passing the certificate; the '
+             'k-cycle iteration (correspondence + oracle). Reading: a variadic gate\'s arity is its highest connected pin.'),
     'C02': dict(
         technique='Coq proofs: exhaustive sweeps of the re-traced 4/8-valued dispatch + logical-relations lemma over op lists; correspondence',
         text='Proof (full at op-list level). The 4- and 8-valued dispatch of c_prop (with and without callback) is re-traced from the '
@@ -93,7 +97,7 @@ CLAIMS = {
              'the statement at op granularity. Tied to the code by SimOps correspondence, by evaluating the certificates on every '
              'generated circuit, and by executing LogicSim/WaveSim/WaveSimCuda with permuted op rows / thread orders.',
         design_ref='5/C07',
-        note='Not a theorem: that SimOps.build always emits an SSA-topological op list (certificate-checked per circuit); interleavings below kernel-instance granularity.'),
+        note='C07_build_ops_ssa proves the SSA-topological form for every well-formed netlist without fork stripping; with strip_forks it is certificate-checked per circuit. Interleavings below kernel-instance granularity are not modelled.'),
     'C08': dict(
         technique='Coq proof of allocator invariants over all alloc/free histories (refinement to a block list); step-by-step correspondence; overlap oracle for the map',
         text='Proof (allocator full, map partial). For ALL histories of well-formed use the Gallina transcription of sim.Heap keeps its '
